@@ -424,6 +424,38 @@ Proof.
     apply all_some_kv_spec in E as [E _]. cbn [jmembers]. rewrite E, dict_last_keys, map_map. cbn. tauto.
 Qed.
 
+Lemma cat_list_names verbose ts name :
+  In name (map fst (cat_list verbose ts)) <-> exists t, In t ts /\ cat_name (tcat t) = name.
+Proof.
+  unfold cat_list. rewrite in_map_iff. split.
+  - intros ([n o] & Hn & Hin). cbn in Hn. subst n. apply in_flat_map in Hin as (c & _ & Hc).
+    destruct (in_cat c ts) as [|t l] eqn:I; [destruct Hc|]. destruct Hc as [Hc|[]]. inversion Hc; subst.
+    assert (Ht : In t (in_cat c ts)) by (rewrite I; left; reflexivity).
+    apply in_cat_In in Ht as [Ht Hc']. exists t. split; [exact Ht|]. rewrite Hc'. reflexivity.
+  - intros (t & Ht & <-). exists (cat_name (tcat t), cat_json verbose (tcat t) (in_cat (tcat t) ts)).
+    split; [reflexivity|]. apply in_flat_map. exists (tcat t). split; [apply all_cats_complete|].
+    destruct (in_cat (tcat t) ts) as [|t0 l] eqn:I.
+    + exfalso. assert (In t (in_cat (tcat t) ts)) by (apply in_cat_In; split; [exact Ht|reflexivity]). rewrite I in H. exact H.
+    + left. reflexivity.
+Qed.
+
+Lemma cat_list_payload verbose ts c o :
+  In (cat_name c, o) (cat_list verbose ts) -> o = cat_json verbose c (in_cat c ts).
+Proof.
+  unfold cat_list. intros Hin. apply in_flat_map in Hin as (c' & _ & Hc).
+  destruct (in_cat c' ts) as [|t l] eqn:I; [destruct Hc|]. destruct Hc as [Hc|[]]. inversion Hc as [[N P]].
+  apply cat_name_inj in N. subst c'. rewrite I. reflexivity.
+Qed.
+
+Lemma cat_members verbose ts c payload :
+  cat_json verbose c (in_cat c ts) = Some payload ->
+  forall p, In p (jmembers payload) <-> exists t, In t ts /\ tcat t = c /\ tpath t = p.
+Proof.
+  intros P p. rewrite (cat_json_members verbose c (in_cat c ts) payload P p), in_map_iff. split.
+  - intros (t' & <- & Ht'). apply in_cat_In in Ht' as [Ht' Hc']. exists t'. repeat split; assumption.
+  - intros (t' & Ht' & Hc' & <-). exists t'. split; [reflexivity|]. apply in_cat_In. split; assumption.
+Qed.
+
 (* the categories of the JSON object are those of the text view, and under each
    category the member names are the paths of the text view's entries *)
 Theorem json_same_keys verbose ts j :
@@ -437,23 +469,57 @@ Proof.
   destruct (all_some_kv _) as [cats|] eqn:E; [|discriminate]. inversion H; subst. clear H.
   exists cats. split; [reflexivity|].
   apply all_some_kv_spec in E as [E1 E2]. split.
-  - intros name. rewrite E1. rewrite in_map_iff. split.
-    + intros ([n o] & Hn & Hin). cbn in Hn. subst n. apply in_flat_map in Hin as (c & _ & Hc).
-      destruct (in_cat c ts) as [|t l] eqn:I; [destruct Hc|]. destruct Hc as [Hc|[]]. inversion Hc; subst.
-      assert (Ht : In t (in_cat c ts)) by (rewrite I; left; reflexivity).
-      apply in_cat_In in Ht as [Ht Hc']. exists t. split; [exact Ht|]. rewrite Hc'. reflexivity.
-    + intros (t & Ht & <-). exists (cat_name (tcat t), cat_json verbose (tcat t) (in_cat (tcat t) ts)).
-      split; [reflexivity|]. apply in_flat_map. exists (tcat t). split; [apply all_cats_complete|].
-      destruct (in_cat (tcat t) ts) as [|t0 l] eqn:I.
-      * exfalso. assert (In t (in_cat (tcat t) ts)) by (apply in_cat_In; split; [exact Ht|reflexivity]). rewrite I in H. exact H.
-      * left. reflexivity.
-  - intros c payload Hin p. apply E2 in Hin. apply in_flat_map in Hin as (c' & _ & Hc).
-    destruct (in_cat c' ts) as [|t l] eqn:I; [destruct Hc|]. destruct Hc as [Hc|[]]. inversion Hc as [[N P]].
-    apply cat_name_inj in N. subst c'. rewrite <- I in P.
-    rewrite (cat_json_members verbose c (in_cat c ts) payload P p), in_map_iff.
-    split.
-    + intros (t' & <- & Ht'). apply in_cat_In in Ht' as [Ht' Hc']. exists t'. repeat split; assumption.
-    + intros (t' & Ht' & Hc' & <-). exists t'. split; [reflexivity|]. apply in_cat_In. split; assumption.
+  - intros name. rewrite E1. apply cat_list_names.
+  - intros c payload Hin. apply E2 in Hin. apply cat_list_payload in Hin. symmetry in Hin.
+    eapply cat_members. exact Hin.
+Qed.
+
+(* ---- repetition_change ---- *)
+Theorem rep_view_spec es rs :
+  Forall2 (fun e t => trpath t = render (ep1 e) /\ trval t = opt_val (et1 e) /\
+                      (trold t, trnew t) = rep_lookup (ep1 e) rs)
+          (filter (fun e => rkind_eqb (ekind e) KRepetition) es) (rep_view es rs).
+Proof.
+  induction es as [|e es IH]; cbn; [constructor|].
+  destruct (ekind e); cbn; try exact IH. constructor; [|exact IH].
+  cbn. repeat split. destruct (rep_lookup (ep1 e) rs); reflexivity.
+Qed.
+
+Lemma rep_name_fresh c : cat_name c <> rep_name.
+Proof. destruct c; intros Hc; vm_compute in Hc; discriminate Hc. Qed.
+
+(* the complete document (with the repetition_change category) *)
+Theorem json_full_same_keys verbose ts reps j :
+  json_full verbose ts reps = Some j ->
+  exists cats, j = JObj cats /\
+    (forall name, In name (map fst cats) <->
+       (exists t, In t ts /\ cat_name (tcat t) = name) \/ (name = rep_name /\ reps <> [])) /\
+    (forall c payload, In (cat_name c, payload) cats ->
+       forall p, In p (jmembers payload) <-> exists t, In t ts /\ tcat t = c /\ tpath t = p) /\
+    (forall payload, In (rep_name, payload) cats ->
+       forall p, In p (jmembers payload) <-> exists t, In t reps /\ trpath t = p).
+Proof.
+  unfold json_full. intros H.
+  destruct (all_some_kv _) as [cats|] eqn:E; [|discriminate]. inversion H; subst. clear H.
+  exists cats. split; [reflexivity|].
+  apply all_some_kv_spec in E as [E1 E2]. split; [|split].
+  - intros name. rewrite E1, map_app, in_app_iff, cat_list_names. split; intros [Hl|Hr]; try (left; exact Hl); right.
+    + unfold rep_cat in Hr. destruct reps; [destruct Hr|]. destruct Hr as [<-|[]]. split; [reflexivity|discriminate].
+    + destruct Hr as [-> Hne]. unfold rep_cat. destruct reps; [congruence|]. left. reflexivity.
+  - intros c payload Hin. apply E2 in Hin. apply in_app_or in Hin as [Hin|Hin].
+    + apply cat_list_payload in Hin. symmetry in Hin. eapply cat_members. exact Hin.
+    + exfalso. unfold rep_cat in Hin. destruct reps; [destruct Hin|]. destruct Hin as [Hin|[]].
+      apply (f_equal fst) in Hin. cbn [fst] in Hin. symmetry in Hin. exact (rep_name_fresh c Hin).
+  - intros payload Hin p. apply E2 in Hin. apply in_app_or in Hin as [Hin|Hin].
+    + exfalso. assert (Hn : In rep_name (map fst (cat_list verbose ts))) by (apply in_map_iff; eexists; split; [|exact Hin]; reflexivity).
+      apply cat_list_names in Hn as (t & _ & Hn). exact (rep_name_fresh _ Hn).
+    + unfold rep_cat in Hin. destruct reps as [|t0 reps0] eqn:R; [destruct Hin|]. destruct Hin as [Hin|[]].
+      apply (f_equal snd) in Hin. cbn [snd] in Hin.
+      destruct (all_some_kv (dict_last _)) as [kvs|] eqn:A; [|discriminate]. cbn in Hin. inversion Hin; subst payload.
+      apply all_some_kv_spec in A as [A _]. cbn [jmembers]. rewrite A, dict_last_keys, map_map. cbn [fst].
+      rewrite in_map_iff. split.
+      * intros (t & <- & Ht). exists t. split; [exact Ht|reflexivity].
+      * intros (t & Ht & <-). exists t. split; [reflexivity|exact Ht].
 Qed.
 
 (* ---- when does to_json succeed ---- *)
